@@ -452,3 +452,59 @@ def dur_family(rng, quick):
             else:
                 n_ok += 1
     return len(pairs) * len(forms), n_ok, failures, {'durations': len(pairs), 'forms': len(forms)}
+
+
+# ------------------------------------------------------------------------- floats as text (to_string)
+def f64_values(rng, quick):
+    import struct as _s
+    out = [0.1, 0.3, 1 / 3, 2.5, 5e-324, 1.7976931348623157e308, 1e21, 1.5e21, 1e22, 1e23, 1e-5, 1e-7, 1.5e-7, 123456.789, 0.1 + 0.2,
+           9.5e18, 1.8446744073709552e19, 2.0 ** 63 + 2048, 4.35, 2.675, 1e15 + 0.5, 9007199254740993.0 * 2 + 0.0, 2.2250738585072014e-308,
+           4.9e-324 * 3, 0.000001, 100000.5, 1e300, -1e300, -0.1, -2.5e-9]
+    for _ in range(150 if quick else 4000):
+        r = rng.random()
+        if r < 0.35:
+            x = _s.unpack('<d', _s.pack('<Q', rng.getrandbits(64)))[0]
+        elif r < 0.6:
+            x = float('%d.%s' % (rng.randint(-10 ** rng.randint(0, 6), 10 ** rng.randint(0, 6)), ''.join(rng.choice('0123456789') for _ in range(rng.randint(1, 17)))))
+        elif r < 0.8:
+            x = rng.choice([-1, 1]) * rng.random() * 10.0 ** rng.randint(-320, 308)
+        else:
+            k = rng.randint(-1070, 1020)
+            x = 2.0 ** k * rng.choice([1, 1 + 2.0 ** -52, 1 - 2.0 ** -53, 1.5])
+        if x != x or x in (float('inf'), float('-inf')):
+            continue
+        if x == int(x) and abs(x) < 2.0 ** 63:
+            continue          # integral values in the i64 range are integers in agrind
+        out.append(x)
+    return out
+
+
+def f64_family(rng, quick):
+    """the text of a float as the string functions see it (Rust's `{}` for f64, F64Display.v): equal to the model, and the
+    clause itself: the text reads back as the same double (no exponent form, shortest digits)"""
+    vals = f64_values(rng, quick)
+    inp = ''.join('{"x":%r}\n' % v for v in vals).encode()
+    q = '* | json | concat("", x) as s | fields s'
+    o = aglib.run_impl_one(q, inp, 'json', timeout=120)
+    lines = [l for l in o['out'].decode('utf8', 'replace').split('\n') if l]
+    failures = []
+    if o['rc'] != 0 or len(lines) != len(vals):
+        return 0, 0, [{'kind': 'spec', 'what': 'float texts: rc=%r, %d lines for %d rows: %r' % (o['rc'], len(lines), len(vals), o['err'][-200:]), 'payload': {'query': q}}], {}
+    mres = aglib.run_model_many([sexp.dumps([Sym('f64disp'), f2bits(v)]) for v in vals])
+    n_ok = 0
+    for v, line, m in zip(vals, lines, mres):
+        got = json.loads(line)['s']
+        payload = {'query': q, 'input_lines': ['{"x":%r}' % v]}
+        try:
+            back = float(got)
+        except ValueError:
+            back = None
+        if back != v or 'e' in got.lower():
+            failures.append({'kind': 'spec', 'what': 'the float %r has the text %r, which reads back as %r' % (v, got, back), 'payload': payload})
+        elif len(got.replace('-', '').replace('.', '').strip('0')) > len(repr(v).split('e')[0].replace('-', '').replace('.', '').strip('0')):
+            failures.append({'kind': 'spec', 'what': 'the float %r has the text %r: more digits than the shortest text that reads back (%r)' % (v, got, repr(v)), 'payload': payload})
+        elif m != got:
+            failures.append({'kind': 'corr', 'what': 'float %r: implementation %r, model %r' % (v, got, m), 'payload': payload})
+        else:
+            n_ok += 1
+    return len(vals), n_ok, failures, {'floats': len(vals)}
